@@ -75,6 +75,8 @@ def fresh(rng):
 
 
 def equal_copy(x):
+    if x is None:
+        return None
     if isinstance(x, tuple):
         return tuple(list(x))
     if isinstance(x, float):
@@ -97,6 +99,9 @@ def run_case(idx, rng, P, rep):
     level = rng.choice(['class', 'instance'])
     n0 = rng.randint(1, 4) if rng.random() < 0.8 else 0      # also selectors declared without any object
     objs = [fresh(rng) for _ in range(n0)]
+    if objs and rng.random() < 0.25:
+        objs[rng.randrange(len(objs))] = None       # None is an object like any other (e.g. {'nothing': None, ...})
+        rep.count('none_among_objects')
     names = [f'k{i}_{rng.randrange(1000)}' for i in range(n0)]
     model_objs = list(objs)
     model_names = collections.OrderedDict(zip(names, objs)) if style == 'dict' else None
